@@ -86,6 +86,7 @@ let str_act = function
   | ASend (m, None) -> Printf.sprintf "send %d none" (int_of_nat m)
   | ASend (m, Some d) -> Printf.sprintf "send %d %d" (int_of_nat m) (int_of_nat d)
   | ABroadcast m -> Printf.sprintf "bcast %d" (int_of_nat m)
+  | ABcastDst (m, d) -> Printf.sprintf "bcastdst %d %d" (int_of_nat m) (int_of_nat d)
   | AGoto p -> "goto " ^ vec p
   | AGotoGeo p -> "gotogeo " ^ vec p
   | ASetSpeed s -> "speed " ^ hx s
@@ -114,6 +115,7 @@ let read_action () : float action =
   | "cancel" -> ACancel (nnat ())
   | "send" -> let m = nnat () in ASend (m, (match next () with "none" -> None | d -> Some (nat_of_int (int_of_string d))))
   | "bcast" -> ABroadcast (nnat ())
+  | "bcastdst" -> let m = nnat () in let d = nnat () in ABcastDst (m, d)
   | "goto" -> AGoto (nvec ())
   | "gotogeo" -> AGotoGeo (nvec ())
   | "speed" -> ASetSpeed (nflt ())
